@@ -32,8 +32,14 @@ var c19Seeds = []string{
 	`.\(?i:a`, `a.b\(?s:c`, `^a\(?i:b`, `x$\(?-s:y`, `[bB]\(?i:c)`, `.\(?i:a)|\(?s:b`, `(?:a|.)\(?i:`, "a.\n\\(?i:b\n", `^\.html(?i:x)`, `.\.html(?i:x)`, `^(a\(?i:b)`, `[zZ]oo\(?s:`,
 	`a\(?i:b`, `(\(?s)x`, `\(?i:`, `x\(?-s:y)z`, `\\(?i:b)`, `a\\\(?s:b`, `(?:\(?i:a)|b)`, `[\(?i:]`, "##!+ i\n\\(?i:a\n", "a\n##!=>\n\\(?s:\n##!=>\nb\n",
 	"##!> assemble\n##!<\n##!<\n", "##!> cmdline unix\n@\n~\n\\@\n'\n##!<\n", "##!> cmdline windows\n\n \n##!<\n", "##!=< \n", "##!=> \n##!=< x\n##!=> x\n", "##!> include\n", "##!> include-except\n", "##!> include-except a\n",
+	// suffix replacement lists with an odd number of arguments, with none, with quotes only
+	"##!> include ok -- @\n", "##!> include nosuchfile -- x y z\n", "##!> include-except ok b -- a\n", "##!> include a --\n", "##!> include a -- \n", "##!> include a -- \"\"\n", "##!> include-except a b -- \"\" \"\" x\n", "##!> include ok -- a b c d e\n",
 	"##!> define a {{a}}\n{{a}}\n", "##!> define a {{b}}\n##!> define b {{a}}\n{{a}}{{b}}\n", "##!^ (\n##!$ )\nx\n", "##!^ [\n##!$ ]\nx\n", "(?i)a\n(?s).\n", "a|b|\n|\n", "()\n(|)\n", "[]]\n[^]]\n", "\\\n", "x{2}{3}\n", "a**\n",
 }
+
+// directory trees that are not shaped like a CRS checkout (the -d argument points into them)
+var c19Shapes = []string{"assembly-dir-is-file-below-root", "assembly-dir-is-file", "assembly-dir-is-file-deeper", "assembly-dir-is-dangling-link", "assembly-dir-links-to-itself", "include-dir-is-file", "include-file-is-dir",
+	"assembly-file-is-dir", "assembly-file-links-to-itself", "configuration-is-dir", "directory-missing", "directory-is-file", "directory-empty-string", "rules-dir-is-file"}
 
 func c19Gen(r *rand.Rand) string {
 	var sb strings.Builder
@@ -97,6 +103,57 @@ func c19Check(env *core.Env, cc core.Case) core.Verdict {
 		invs = []inv{{[]string{"regex", "generate", "932100"}, nil}, {[]string{"regex", "compare", "932100"}, nil}, {[]string{"regex", "format", "--check", "932100"}, nil},
 			{[]string{"regex", "update", "932100"}, nil}, {[]string{"regex", "format", "932100"}, nil}, {[]string{"regex", "generate", "932100"}, nil}}
 	}
+	dirArg := root
+	if shape, ok := strings.CutPrefix(c.Via, "tree:"); ok {
+		// a directory tree that is not shaped like a CRS checkout: the program itself is harmless
+		invs = []inv{{[]string{"regex", "generate", "-"}, []byte(c.Input)}, {[]string{"regex", "format", "--check", "--all"}, nil}, {[]string{"regex", "compare", "--all"}, nil}}
+		switch shape {
+		case "assembly-dir-is-file-below-root":
+			tree["docs/regex-assembly"] = "notes about the assembly format\n"
+			dirArg = root + "/docs"
+		case "assembly-dir-is-file":
+			tree = sut.Tree{"../odd/regex-assembly": "a file\n"}
+			dirArg = root + "/../odd"
+		case "assembly-dir-is-file-deeper":
+			tree = sut.Tree{"../odd/regex-assembly": "a file\n", "../odd/a/b/": ""}
+			dirArg = root + "/../odd/a/b"
+		case "assembly-dir-is-dangling-link":
+			tree = sut.Tree{"../odd/regex-assembly": sut.SymlinkPrefix + "nowhere"}
+			dirArg = root + "/../odd"
+		case "assembly-dir-links-to-itself":
+			tree = sut.Tree{"../odd/regex-assembly": sut.SymlinkPrefix + "regex-assembly"}
+			dirArg = root + "/../odd"
+		case "include-dir-is-file":
+			tree = sut.Tree{"../odd/regex-assembly/include": "a file\n", "../odd/regex-assembly/932100.ra": "x\n"}
+			dirArg = root + "/../odd"
+		case "include-file-is-dir":
+			tree["regex-assembly/include/ok.ra/"] = ""
+			delete(tree, "regex-assembly/include/ok.ra")
+		case "assembly-file-is-dir":
+			delete(tree, "regex-assembly/932100.ra")
+			tree["regex-assembly/932100.ra/"] = ""
+		case "assembly-file-links-to-itself":
+			tree["regex-assembly/932100.ra"] = sut.SymlinkPrefix + "932100.ra"
+		case "configuration-is-dir":
+			delete(tree, "regex-assembly/toolchain.yaml")
+			tree["regex-assembly/toolchain.yaml/"] = ""
+		case "directory-missing":
+			dirArg = root + "/no/such/dir"
+		case "directory-is-file":
+			tree["afile"] = "x\n"
+			dirArg = root + "/afile"
+		case "directory-empty-string":
+			dirArg = ""
+		case "rules-dir-is-file":
+			for k := range tree {
+				if strings.HasPrefix(k, "rules/") {
+					delete(tree, k)
+				}
+			}
+			tree["rules"] = "a file\n"
+			tree["regex-assembly/932100.ra"] = "x\n"
+		}
+	}
 	if err := tree.Write(root); err != nil {
 		return core.Incon("cannot write tree: %v", err)
 	}
@@ -112,7 +169,7 @@ func c19Check(env *core.Env, cc core.Case) core.Verdict {
 	}
 	for _, bin := range bins {
 		for _, in := range invs {
-			args := append([]string{"-d", root}, in.args...)
+			args := append([]string{"-d", dirArg}, in.args...)
 			r := sut.Run(sut.Cmd{Bin: bin, Args: args, Stdin: in.stdin, Dir: root, Timeout: 20 * time.Second})
 			v.Counts["executions"]++
 			if r.Class() == sut.ClassTimeout {
@@ -179,13 +236,18 @@ func init() {
 	register(&core.Property{
 		ID:    "C19",
 		Level: "exploration",
-		Rule: "token-level fuzzing: byte strings up to 4 KiB assembled from ~120 tokens (directive fragments, block and marker keywords, regex metacharacters, escapes including \\( \\) ?i: ?s: (?-s: (?U), braces and oversized repeats, quotes, control, non-ASCII and invalid UTF-8 bytes, CR) and 29 seed fragments (escaped parentheses in front of flag-like text, empty and unbalanced constructs, self-referential definitions, partial groups in prefix/suffix) are fed to the built CLI on stdin, through an include file (include, include-except in both roles, suffix replacement) and as an assembly file through generate, compare, format --check, update and format. " +
+		Rule: "token-level fuzzing: byte strings up to 4 KiB assembled from ~120 tokens (directive fragments, block and marker keywords, regex metacharacters, escapes including \\( \\) ?i: ?s: (?-s: (?U), braces and oversized repeats, quotes, control, non-ASCII and invalid UTF-8 bytes, CR) and ~80 seed fragments (escaped parentheses in front of flag-like text, empty and unbalanced constructs, self-referential definitions, partial groups in prefix/suffix) are fed to the built CLI on stdin, through an include file (include, include-except in both roles, suffix replacement) and as an assembly file through generate, compare, format --check, update and format; 14 directory shapes that are not a CRS checkout (regex-assembly being a file, a dangling or self-referential link; include directory a file; an include or assembly file being a directory or a link to itself; configuration a directory; -d missing, a file, empty) get three harmless programs each. " +
 			"Oracle: exit classification at the process boundary — no 'runtime error', 'fatal error', signal, race or checkptr report on stderr, and termination within the watchdog (20 s, re-run with 120 s before it is called a hang); exit 0, exit 1 and zerolog's deliberate panic diagnostics (exit 2, 'panic:' without runtime error) are all acceptable. The thorough tier repeats a tenth of the inputs on a -race build. Every input is non-trivial; distinct by content hash.",
 		Cases: func(env *core.Env, rng *rand.Rand) []core.Case {
 			n := env.N(5000, 150000)
 			var cs []core.Case
 			for _, s := range c19Seeds {
 				cs = append(cs, &c19Case{Input: s, Via: "stdin"}, &c19Case{Input: s, Via: "include"}, &c19Case{Input: s, Via: "file-commands"})
+			}
+			for _, shape := range c19Shapes {
+				for _, in := range []string{"foo\nbar\n", "##!> include ok\nfoo\n", "##!> cmdline unix\n  ls\n##!<\n"} {
+					cs = append(cs, &c19Case{Input: in, Via: "tree:" + shape})
+				}
 			}
 			for i := 0; i < n; i++ {
 				via := "stdin"
